@@ -25,19 +25,19 @@ Fixpoint run_steps_r (sc : scenario) (armed : list reaction) (w : world) (steps 
    the snapshot probes are not meaningful when a reaction changes the registry mid-frame *)
 Definition strip_probe (a : out) : out :=
   mkOut (x_pre a) (x_main a) (x_post a) (x_log a) (x_snaps a) (x_mirror a) (x_built a) true true (x_panicked a).
-Fixpoint outs_diff_r (i : Z) (steps : list step) (a b : list out) : Z :=
+Fixpoint outs_diff_r (key : event -> Z) (i : Z) (steps : list step) (a b : list out) : Z :=
   match a, b with
   | [], [] => 0
   | x :: r, y :: s =>
       (* closing events of different context types (rebuild) come in hash-map order: compare the streams per
-         (action, target), whose internal order - closing event before the rest of the frame - is kept *)
-      let d := out_diff false (strip_probe x) (strip_probe y) in
-      if Z.eqb d 0 then outs_diff_r (i + 1) (tl steps) r s else i * 100 + d
+         context type, whose internal order - closing event before the rest of the frame, actions in binding order - is kept *)
+      let d := out_diff_k key false (strip_probe x) (strip_probe y) in
+      if Z.eqb d 0 then outs_diff_r key (i + 1) (tl steps) r s else i * 100 + d
   | _, _ => i * 100 + 99
   end.
 Definition agree (p : rcase * trace_t) : bool :=
   match p with
-  | (reacting rs sc, trace outs) => Z.eqb (outs_diff_r 0 (s_steps sc) (run_steps_r sc rs world_init (s_steps sc)) outs) 0
+  | (reacting rs sc, trace outs) => Z.eqb (outs_diff_r (ctx_key sc) 0 (s_steps sc) (run_steps_r sc rs world_init (s_steps sc)) outs) 0
   | _ => false
   end.
 
